@@ -278,7 +278,7 @@ func detSection(t *rapid.T, opts gen.Opts) string {
 		case 4:
 			line("    print(struct(zeta = 1, alpha = d), struct(**d))")
 		case 5:
-			line("    print([hash(k) for k in d][:9])")
+			line("    print([hash(k) for k in d][:9], [hash(bytes(\"bytes-%%d-longer-than-twelve\" %% i)) for i in range(3)], hash(b\"short\"), hash(\"\"), hash(b\"\"))")
 		case 6:
 			line("    print(json.decode('{\"b\": 1, \"a_long_object_key_here\": [1, 2, {\"z\": 0, \"y\": 1}], \"a\": 2.5}'))")
 		case 7:
